@@ -38,7 +38,8 @@ KIND_COQ = {'lan_get_lights': 'KLanGetLights', 'lan_set_color_all': 'KLanSetColo
             'get_product_name': 'KGetProductName', 'get_color': 'KGetColor', 'set_color': 'KSetColor', 'get_power': 'KGetPower',
             'set_power': 'KSetPower', 'get_zones': 'KGetZones', 'set_zones': 'KSetZones', 'get_chain': 'KGetChain',
             'get_tile': 'KGetTile', 'set_tile': 'KSetTile'}
-WRAPPED_KINDS = {'get_color', 'set_color', 'get_power', 'set_power', 'get_zones', 'set_zones', 'get_chain', 'get_tile', 'set_tile'}
+WRAPPED_KINDS = {'get_color', 'set_color', 'get_power', 'set_power', 'get_zones', 'set_zones', 'get_chain', 'get_tile', 'set_tile',
+                 'lan_set_color_all', 'lan_set_power_all'}   # the broadcasts are retried since D47
 RETRY_BOUND = 3
 
 
@@ -446,9 +447,9 @@ def gen_cmd(rng, pop, kind=None):
     raise ValueError(kind)
 
 
-def is_idle(pop, c):
-    """Commands aimed at an unknown name or at a light without the capability (the property:
-    they change nothing)."""
+def is_idle(pop, c, sizeless=()):
+    """Commands aimed at an unknown name or at a light without the capability -- including a
+    matrix light whose size discovery never learned (the property: they change nothing)."""
     by = {p['name']: p for p in pop}
     if c[0] in ('color', 'power'):
         t = c[1]
@@ -461,7 +462,7 @@ def is_idle(pop, c):
     if c[0] == 'zone':
         return c[1] not in by or by[c[1]]['kind'] != 'multizone'
     if c[0] == 'matrix':
-        return c[1] not in by or by[c[1]]['kind'] != 'matrix'
+        return c[1] not in by or by[c[1]]['kind'] != 'matrix' or c[1] in sizeless
     if c[0] == 'get':
         return c[1] not in by or by[c[1]]['kind'] != 'plain'
     return False
@@ -532,10 +533,10 @@ def dirty_run(obs):
     tainted = set()
     for r in obs['requests']:
         lost = not any(r['outcomes'])
-        if r['kind'] == 'get_color' and (lost or r['label'] in tainted):
+        if r['kind'] == 'get_color' and (lost or r['label'] in tainted or LAN in tainted):
             return True
         if lost:
-            tainted.add(r['label'])
+            tainted.add(r['label'])      # an abandoned broadcast (label LAN) leaves every light in doubt
     return False
 
 
@@ -621,8 +622,13 @@ SEEDS = [
     (set(), [REGS, ('color', ('light', 'ghost'), 0), ('power', ('group', 'ghost'), True, 0), ('color', ('location', 'Nobody'), 5),
              ('get', 'Nobody'), ('matrix', 'ghost', (0, None), None, 0), ('get', 'Candle'), ('get', 'Strip 1'), ('power', ('light', 'Top'), False, 0)], []),
     # broadcasts
-    (set(), [REGS, ('color', ('all',), 0), ('color', ('light', 'Top'), 0)], [{(LAN, 'lan_set_color_all', 0)}]),
-    (set(), [('power', ('all',), True, 0), ('power', ('light', 'Lamp'), False, 0)], [{(LAN, 'lan_set_power_all', 0)}]),
+    (set(), [REGS, ('color', ('all',), 0), ('color', ('light', 'Top'), 0)],
+     [{(LAN, 'lan_set_color_all', 0)}, {(LAN, 'lan_set_color_all', i) for i in range(3)}]),
+    (set(), [('power', ('all',), True, 0), ('power', ('light', 'Lamp'), False, 0)],
+     [{(LAN, 'lan_set_power_all', 0)}, {(LAN, 'lan_set_power_all', i) for i in range(3)}]),
+    # an abandoned broadcast, then a get: every light is in doubt (excluded data dependence)
+    (set(), [REGS, ('color', ('all',), 0), ('get', 'Top'), ('color', ('light', 'Lamp'), 0)],
+     [{(LAN, 'lan_set_color_all', i) for i in range(3)}]),
     # a matrix light that did not answer the size query during discovery, then a row command
     ({('Candle', 'get_chain', 0), ('Candle', 'get_chain', 1), ('Candle', 'get_chain', 2)},
      [REGS, ('matrix', 'Candle', (1, None), None, 0), ('color', ('light', 'Top'), 0)], []),
@@ -653,7 +659,7 @@ def run(ctx):
     ctx.trusted += ['harness/fake_lifx.py (simulated lifxlan layer; lifxlan package: %s)' % fake_lifx.ensure_lifxlan()]
     model_ok = ctx.model_runnable
     thorough = ctx.thorough()
-    n_pops = 45 if thorough else 24
+    n_pops = 45 if thorough else 20
     scripts_per_pop = 8 if thorough else 6
     upto = 4 if thorough else 3
 
@@ -671,7 +677,8 @@ def run(ctx):
 
     def exercise(env, pop, dplan, dhead, cmds, key, extra_plans=(), join=True):
         script = render(cmds, rng if join else None)
-        stripped = [c for c in cmds if not is_idle(pop, c)]
+        sizeless = {n for n, d, code in env.view() if code == -1}
+        stripped = [c for c in cmds if not is_idle(pop, c, sizeless)]
         stats['scripts'] += 1
         stats['idle_cmds'] += len(cmds) - len(stripped)
         for c in cmds:
@@ -1048,7 +1055,7 @@ def replay(ctx, payload):
                 c[2] = None if c[2] is None else tuple(c[2])
                 c[3] = None if c[3] is None else tuple(c[3])
             norm.append(tuple(c))
-        stripped = render([c for c in norm if not is_idle(pop, c)])
+        stripped = render([c for c in norm if not is_idle(pop, c, {n for n, d_, code in env.view() if code == -1})])
     free = env.run(stripped if stripped is not None else script)
     healthy = [l for l in env.net.labels() + [LAN] if not any(k[0] == l for k in plan)]
     v = py_judge(env.ids, healthy, obs, free, payloads=not dirty_run(obs))
